@@ -1,17 +1,21 @@
-(* Theory/Rebase.v -- facts about Model/Rebase.v (generate_simple_plan, rebase_todo).
+(* Theory/Rebase.v -- facts about Model/Rebase.v (generate_simple_plan as repaired
+   by be02b0d, rebase_todo).
 
    For EVERY well-formed graph g, every id generator gen, every topological
    order [order] the environment may return:
-   - [plan_domain_skip], [plan_domain_slice]: the plan's keys are the slice
-     order[start..stop] (minus merges dropped by skip_full_merged), in order;
-   - [plan_domain_cmd]: for the command's call (todo_set = find_difference(tip, onto)[0],
-     no start) they are exactly the present revisions of ancestry(tip) \ ancestry(onto);
-   - [plan_succeeds_cmd]: that call fails only with UnrelatedBranches;
-   - [plan_parents], [plan_parents_noskip]: where every new parent comes from;
-   - [parents_refuted]: with skip_full_merged a new parent can be an old revision
-     that was to be replayed (the child of a dropped merge);
-   - [todo_deps_first], [deps_first_any_topo]: rebase_todo / any topological order
-     of the old graph visit dependencies first;
+   - [plan_spec]: the whole specification of a plan: its keys are the slice
+     order[start..stop] minus the merges dropped by skip_full_merged, in order,
+     and every new parent is onto, or the new id of an EARLIER entry that
+     rewrites an old parent -- or a parent of a dropped merge among the old
+     parents ([linked]) --, or an old parent outside the slice;
+   - [plan_domain_skip], [plan_domain_slice], [plan_domain_cmd] (the command's
+     call: exactly the present revisions of ancestry(tip) \ ancestry(onto)),
+     [plan_succeeds_cmd] (fails only with UnrelatedBranches);
+   - [plan_parents], [plan_parents_noskip];
+   - [todo_deps_first]: rebase_todo (plan order) visits dependencies first;
+   - [deps_first_any_topo_noskip] / [any_topo_refuted]: every topological order
+     of the OLD graph does so without skip_full_merged, but NOT with it (a
+     dropped merge leaves no old-graph edge between its child and its parent);
    - [new_ids_distinct]. *)
 From Coq Require Import List Arith Bool Lia.
 From BV Require Import Lib.Dag Lib.DagTopo Lib.PyDict Theory.DagFacts Theory.DagTopoFacts Model.Rebase.
@@ -71,6 +75,30 @@ Definition replayed (order : list revid) (start stop : option revid) (todo : lis
 Lemma hd_error_index (l : list revid) s : hd_error l = Some s -> index_of s l = Some 0.
 Proof. destruct l as [|x l]; cbn [hd_error]; intros H; inversion H. apply index_of_hd. Qed.
 
+
+Lemma rm_get_snoc_some (m : rmap) e k x : rm_get m k = Some x -> rm_get (m ++ [e]) k = Some x.
+Proof.
+  unfold rm_get. induction m as [|[k' v'] m IH]; cbn [dict_get app]; [discriminate|].
+  destruct (k =? k'); [auto|exact IH].
+Qed.
+
+Lemma rm_get_snoc_new (m : rmap) k v : rm_get m k = None -> rm_get (m ++ [(k, v)]) k = Some v.
+Proof.
+  unfold rm_get. induction m as [|[k' v'] m IH]; cbn [dict_get app].
+  - rewrite Nat.eqb_refl. reflexivity.
+  - destruct (k =? k'); [discriminate|exact IH].
+Qed.
+
+Lemma sk_get_set (sk : skmap) k v r : sk_get (sk_set sk k v) r = if r =? k then Some v else sk_get sk r.
+Proof.
+  unfold sk_get, sk_set. induction sk as [|[k' v'] sk IH]; cbn [dict_set dict_get].
+  - reflexivity.
+  - destruct (k =? k') eqn:E; cbn [dict_get].
+    + apply Nat.eqb_eq in E. subst k'. destruct (r =? k); reflexivity.
+    + destruct (r =? k') eqn:E'; [|exact IH].
+      apply Nat.eqb_eq in E'. subst k'. rewrite Nat.eqb_sym, E. reflexivity.
+Qed.
+
 Section Plan.
 Variable g : dag.
 Variable gen : revid -> list revid -> revid.
@@ -82,99 +110,169 @@ Proof.
   apply parents_present in Hp. lia.
 Qed.
 
-(* where a new parent p of the rewritten [old] may come from, given the
-   entries m made before it *)
-Definition pok (onto : revid) (m : rmap) (old p : revid) : Prop :=
-  p = onto \/
-  (exists o' ps', In o' (parents g old) /\ rm_get m o' = Some (p, ps')) \/
-  (In p (parents g old) /\ rm_get m p = None).
+(* [linked D o r]: o is an old parent of r, or a parent of a dropped merge (D)
+   that is itself (linked as) a parent of r *)
+Inductive linked (D : revid -> Prop) : revid -> revid -> Prop :=
+| linked_parent o r : In o (parents g r) -> linked D o r
+| linked_drop o q r : In q (parents g r) -> D q -> linked D o q -> linked D o r.
 
-Lemma left_parents_ok onto m old :
-  left_parents g m onto (parents g old) <> [] /\
-  forall p, In p (left_parents g m onto (parents g old)) -> pok onto m old p.
+Lemma linked_mono (D D' : revid -> Prop) o r :
+  (forall q, D q -> D' q) -> linked D o r -> linked D' o r.
 Proof.
-  unfold left_parents, pok. destruct (parents g old) as [|p0 rest].
-  - split; [discriminate|]. intros p [<-|[]]. left; reflexivity.
+  intros H L. induction L as [o r Hp | o q r Hq Dq _ IH].
+  - apply linked_parent. exact Hp.
+  - eapply linked_drop; [exact Hq | apply H; exact Dq | exact IH].
+Qed.
+
+(* linked revisions are strict ancestors *)
+Lemma linked_reach D o r : linked D o r -> reach g o r /\ o <> r.
+Proof.
+  intros L.
+  assert (E : exists q, In q (parents g r) /\ reach g o q).
+  { induction L as [o r Hp | o q r Hq _ _ [q' [Hq' R]]].
+    - exists o. split; [exact Hp | apply reach_refl].
+    - exists q. split; [exact Hq|]. eapply reach_step; [exact Hq' | exact R]. }
+  destruct E as [q [Hq R]]. split; [eapply reach_step; eassumption|].
+  intros ->. apply (parent_neq q r Hq). apply (reach_antisym g q r W).
+  - eapply reach_step; [exact Hq | apply reach_refl].
+  - exact R.
+Qed.
+
+Lemma linked_no_drop (D : revid -> Prop) o r : (forall q, ~ D q) -> linked D o r -> In o (parents g r).
+Proof. intros H L. destruct L as [o r Hp | o q r _ Dq _]; [exact Hp | destruct (H q Dq)]. Qed.
+
+Definition dropped_in (sk : skmap) (q : revid) : Prop := sk_get sk q <> None.
+
+(* the new base, or the new id of an entry of m that rewrites a linked revision *)
+Definition p12 (onto : revid) (m : rmap) (sk : skmap) (old p : revid) : Prop :=
+  p = onto \/ exists o' ps', linked (dropped_in sk) o' old /\ rm_get m o' = Some (p, ps').
+(* ... or an old parent that is neither rewritten nor dropped so far *)
+Definition pnow (onto : revid) (m : rmap) (sk : skmap) (old p : revid) : Prop :=
+  p12 onto m sk old p \/ (In p (parents g old) /\ rm_get m p = None /\ sk_get sk p = None).
+
+Definition sk_ok (onto : revid) (m : rmap) (sk : skmap) : Prop :=
+  forall M v, sk_get sk M = Some v -> p12 onto m sk M v.
+
+Lemma p12_mono onto m m' sk sk' old p :
+  (forall k x, rm_get m k = Some x -> rm_get m' k = Some x) ->
+  (forall q, dropped_in sk q -> dropped_in sk' q) ->
+  p12 onto m sk old p -> p12 onto m' sk' old p.
+Proof.
+  intros Hm Hs [->|[o' [ps' [L G]]]]; [left; reflexivity|right].
+  exists o', ps'. split; [eapply linked_mono; eassumption | apply Hm; exact G].
+Qed.
+
+Lemma rewritten_some onto m sk old q n :
+  sk_ok onto m sk -> In q (parents g old) -> rewritten m sk q = Some n -> p12 onto m sk old n.
+Proof.
+  unfold rewritten. intros Hsk Hq H.
+  destruct (rm_get m q) as [[n' ps']|] eqn:G.
+  - inversion H; subst n'. right. exists q, ps'. split; [apply linked_parent; exact Hq | exact G].
+  - destruct (Hsk q n H) as [->|[o' [ps' [L G']]]]; [left; reflexivity|right].
+    exists o', ps'. split; [|exact G'].
+    eapply linked_drop; [exact Hq | unfold dropped_in; rewrite H; discriminate | exact L].
+Qed.
+
+Lemma rewritten_none m sk q : rewritten m sk q = None -> rm_get m q = None /\ sk_get sk q = None.
+Proof.
+  unfold rewritten. destruct (rm_get m q) as [[n ps]|]; [discriminate|]. intros H. split; [reflexivity|exact H].
+Qed.
+
+Definition hd12 (onto : revid) (m : rmap) (sk : skmap) (old : revid) (l : list revid) : Prop :=
+  match l with [] => False | h :: _ => p12 onto m sk old h end.
+
+Lemma hd12_app onto m sk old l x : hd12 onto m sk old l -> hd12 onto m sk old (l ++ [x]).
+Proof. destruct l; [contradiction|exact (fun H => H)]. Qed.
+
+Lemma left_parents_ok onto m sk old : sk_ok onto m sk ->
+  hd12 onto m sk old (left_parents g m sk onto (parents g old)) /\
+  forall p, In p (left_parents g m sk onto (parents g old)) -> pnow onto m sk old p.
+Proof.
+  intros Hsk. unfold left_parents.
+  assert (O : p12 onto m sk old onto) by (left; reflexivity).
+  destruct (parents g old) as [|p0 rest] eqn:E.
+  - split; [exact O|]. intros p [<-|[]]. left; exact O.
   - destruct (heads_is_onto g p0 onto).
-    + split; [discriminate|]. intros p [<-|[]]. left; reflexivity.
-    + destruct (rm_get m p0) as [[n ps']|] eqn:G.
-      * split; [discriminate|]. intros p [<-|[]]. right; left.
-        exists p0, ps'. split; [left; reflexivity|exact G].
-      * split; [discriminate|]. intros p [<-|[<-|[]]]; [left; reflexivity|].
-        right; right. split; [left; reflexivity|exact G].
+    + split; [exact O|]. intros p [<-|[]]. left; exact O.
+    + destruct (rewritten m sk p0) as [n|] eqn:R.
+      * assert (N : p12 onto m sk old n).
+        { apply (rewritten_some onto m sk old p0 n Hsk); [rewrite E; left; reflexivity | exact R]. }
+        split; [exact N|]. intros p [<-|[]]. left; exact N.
+      * apply rewritten_none in R as [R1 R2].
+        split; [exact O|]. intros p [<-|[<-|[]]]; [left; exact O|].
+        right. split; [rewrite E; left; reflexivity | split; assumption].
 Qed.
 
-Lemma other_parents_ok onto m old add : forall others acc,
+Lemma other_parents_ok onto m sk old add : sk_ok onto m sk -> forall others acc,
   (forall x, In x others -> In x (parents g old)) ->
-  acc <> [] -> (forall p, In p acc -> pok onto m old p) ->
-  other_parents g m onto add others acc <> [] /\
-  forall p, In p (other_parents g m onto add others acc) -> pok onto m old p.
+  hd12 onto m sk old acc -> (forall p, In p acc -> pnow onto m sk old p) ->
+  hd12 onto m sk old (other_parents g m sk onto add others acc) /\
+  forall p, In p (other_parents g m sk onto add others acc) -> pnow onto m sk old p.
 Proof.
-  induction others as [|op rest IH]; intros acc Hsub Hne Hacc; cbn [other_parents]; [split; assumption|].
-  apply IH.
-  - intros x Hx. apply Hsub. right. exact Hx.
-  - destruct (memb op add); [|exact Hne].
-    destruct (heads_is_onto g op onto); [exact Hne|].
-    destruct (rm_get m op) as [[n ps']|].
-    + destruct (first_is onto acc).
-      * destruct acc; [congruence|discriminate].
-      * intros H. apply app_eq_nil in H as [_ H]. discriminate.
-    + intros H. apply app_eq_nil in H as [_ H]. discriminate.
-  - intros p Hp. destruct (memb op add); [|exact (Hacc p Hp)].
-    destruct (heads_is_onto g op onto); [exact (Hacc p Hp)|].
-    destruct (rm_get m op) as [[n ps']|] eqn:G.
-    + assert (Hn : pok onto m old n).
-      { right; left. exists op, ps'. split; [apply Hsub; left; reflexivity|exact G]. }
-      destruct (first_is onto acc).
-      * apply set_first_In in Hp as [->|Hp]; [exact Hn|exact (Hacc p Hp)].
-      * apply in_app_or in Hp as [Hp|[<-|[]]]; [exact (Hacc p Hp)|exact Hn].
-    + apply in_app_or in Hp as [Hp|[<-|[]]]; [exact (Hacc p Hp)|].
-      right; right. split; [apply Hsub; left; reflexivity|exact G].
+  intros Hsk. induction others as [|op rest IH]; intros acc Hsub Hhd Hacc; cbn [other_parents]; [split; assumption|].
+  assert (Hsub' : forall x, In x rest -> In x (parents g old)) by (intros x Hx; apply Hsub; right; exact Hx).
+  destruct (memb op add); [|apply IH; assumption].
+  destruct (heads_is_onto g op onto); [apply IH; assumption|].
+  destruct (rewritten m sk op) as [n|] eqn:R.
+  - assert (N : p12 onto m sk old n).
+    { apply (rewritten_some onto m sk old op n Hsk); [apply Hsub; left; reflexivity | exact R]. }
+    destruct ((n =? onto) || memb n acc); [apply IH; assumption|].
+    destruct (first_is onto acc).
+    + apply IH; [exact Hsub' | |].
+      * destruct acc; [contradiction|exact N].
+      * intros p Hp. apply set_first_In in Hp as [->|Hp]; [left; exact N|exact (Hacc p Hp)].
+    + apply IH; [exact Hsub' | apply hd12_app; exact Hhd |].
+      intros p Hp. apply in_app_or in Hp as [Hp|[<-|[]]]; [exact (Hacc p Hp)|left; exact N].
+  - apply rewritten_none in R as [R1 R2].
+    apply IH; [exact Hsub' | apply hd12_app; exact Hhd |].
+    intros p Hp. apply in_app_or in Hp as [Hp|[<-|[]]]; [exact (Hacc p Hp)|].
+    right. split; [apply Hsub; left; reflexivity | split; assumption].
 Qed.
 
-Lemma new_parents_ok onto m old :
-  new_parents g m onto (parents g old) <> [] /\
-  forall p, In p (new_parents g m onto (parents g old)) -> pok onto m old p.
+Lemma new_parents_ok onto m sk old : sk_ok onto m sk ->
+  hd12 onto m sk old (new_parents g m sk onto (parents g old)) /\
+  forall p, In p (new_parents g m sk onto (parents g old)) -> pnow onto m sk old p.
 Proof.
-  unfold new_parents. generalize (left_parents_ok onto m old).
-  destruct (parents g old) as [|p0 [|p1 rest]] eqn:E; intros [Hne Hok]; try (split; assumption).
-  apply other_parents_ok; [|exact Hne|exact Hok].
+  intros Hsk. unfold new_parents. generalize (left_parents_ok onto m sk old Hsk).
+  destruct (parents g old) as [|p0 [|p1 rest]] eqn:E; intros [Hhd Hok]; try (split; assumption).
+  apply other_parents_ok; [exact Hsk | | exact Hhd | exact Hok].
   intros x Hx. rewrite E. right. exact Hx.
 Qed.
 
-Lemma plan_step_cases onto skip m old m' :
-  plan_step g gen onto skip m old = Ok m' -> rm_get m old = None ->
-  (m' = m /\ skip = true /\ 1 < length (parents g old)) \/
-  (exists ps, ps = new_parents g m onto (parents g old) /\ gen old ps <> old /\
-              m' = m ++ [(old, (gen old ps, ps))]).
+Lemma plan_step_cases onto skip m sk old st' :
+  plan_step g gen onto skip (m, sk) old = Ok st' -> rm_get m old = None ->
+  let ps := new_parents g m sk onto (parents g old) in
+  (exists v, ps = [v] /\ st' = (m, sk_set sk old v) /\ skip = true /\ 1 < length (parents g old)) \/
+  (gen old ps <> old /\ st' = (m ++ [(old, (gen old ps, ps))], sk)).
 Proof.
-  unfold plan_step. cbv zeta. intros H G.
-  destruct ((1 <? length (parents g old)) && (length (new_parents g m onto (parents g old)) =? 1) && skip) eqn:C.
-  - inversion H; subst m'. left. apply andb_true_iff in C as [C1 C3]. apply andb_true_iff in C1 as [C1 C2].
-    apply Nat.ltb_lt in C1. auto.
-  - right. destruct (gen old (new_parents g m onto (parents g old)) =? old) eqn:E; [discriminate|].
-    inversion H; subst m'. eexists; split; [reflexivity|].
-    split; [apply Nat.eqb_neq; exact E|]. apply rm_set_absent; exact G.
+  unfold plan_step. cbv zeta. cbn [fst snd]. intros H G.
+  destruct ((1 <? length (parents g old)) && (length (new_parents g m sk onto (parents g old)) =? 1) && skip) eqn:C.
+  - inversion H; subst st'. left. apply andb_true_iff in C as [C1 C3]. apply andb_true_iff in C1 as [C1 C2].
+    apply Nat.ltb_lt in C1. apply Nat.eqb_eq in C2.
+    destruct (new_parents g m sk onto (parents g old)) as [|v [|v' l]]; try discriminate.
+    exists v. cbn [hd]. auto.
+  - right. destruct (gen old (new_parents g m sk onto (parents g old)) =? old) eqn:E; [discriminate|].
+    inversion H; subst st'. split; [apply Nat.eqb_neq; exact E|].
+    rewrite rm_set_absent by exact G. reflexivity.
 Qed.
 
-Definition entry_ok (onto : revid) (m1 : rmap) (e : revid * (revid * list revid)) : Prop :=
+(* an entry, justified by the entries m1 before it; T = the revisions to replay *)
+Definition entry_ok (onto : revid) (T : list revid) (sk : skmap) (m1 : rmap)
+                    (e : revid * (revid * list revid)) : Prop :=
   fst (snd e) = gen (fst e) (snd (snd e)) /\ fst (snd e) <> fst e /\ snd (snd e) <> [] /\
-  forall p, In p (snd (snd e)) -> pok onto m1 (fst e) p.
+  forall p, In p (snd (snd e)) ->
+    p12 onto m1 sk (fst e) p \/ (In p (parents g (fst e)) /\ ~ In p T).
 
-(* every entry is justified by the entries before it *)
-Definition plan_ok (onto : revid) (m : rmap) : Prop :=
-  forall m1 e m2, m = m1 ++ e :: m2 -> entry_ok onto m1 e.
+Definition plan_ok (onto : revid) (T : list revid) (sk : skmap) (m : rmap) : Prop :=
+  forall m1 e m2, m = m1 ++ e :: m2 -> entry_ok onto T sk m1 e.
 
-Lemma plan_ok_nil onto : plan_ok onto [].
-Proof. intros m1 e m2 H. destruct m1; discriminate. Qed.
-
-Lemma plan_ok_snoc onto m e : plan_ok onto m -> entry_ok onto m e -> plan_ok onto (m ++ [e]).
+Lemma plan_ok_snoc onto T sk m e :
+  plan_ok onto T sk m -> entry_ok onto T sk m e -> plan_ok onto T sk (m ++ [e]).
 Proof.
   intros Hm He m1 e' m2 H.
   destruct (exists_last (l := e' :: m2)) as [m2' [x Hx]]; [discriminate|].
   destruct m2' as [|y m2'].
-  - (* e' is the last element *)
-    destruct m2 as [|z m2]; [|destruct m2; discriminate].
+  - destruct m2 as [|z m2]; [|destruct m2; discriminate].
     apply app_inj_tail in H as [-> ->]. exact He.
   - assert (E : m2 = m2' ++ [x] /\ y = e').
     { cbn [app] in Hx. inversion Hx. split; reflexivity. }
@@ -184,48 +282,130 @@ Proof.
     apply app_inj_tail in H as [-> _]. apply (Hm m1 e' m2' eq_refl).
 Qed.
 
-(* the loop  for oldrevid in todo *)
-Lemma loop_inv onto skip : forall todo m m',
-  NoDup todo -> (forall r, In r todo -> rm_get m r = None) -> plan_ok onto m ->
-  plan_loop g gen onto skip todo m = Ok m' ->
-  plan_ok onto m' /\
-  exists f, map fst m' = map fst m ++ filter f todo /\
-            forall r, In r todo -> f r = false -> skip = true /\ 1 < length (parents g r).
+Lemma plan_ok_mono onto T sk sk' m :
+  (forall q, dropped_in sk q -> dropped_in sk' q) -> plan_ok onto T sk m -> plan_ok onto T sk' m.
 Proof.
-  induction todo as [|old rest IH]; intros m m' ND Hfresh Hok H; cbn [plan_loop] in H.
-  - inversion H; subst m'. split; [exact Hok|]. exists (fun _ => true).
-    cbn [filter]. rewrite app_nil_r. split; [reflexivity|]. intros r [].
-  - inversion ND as [|? ? Hnin ND']; subst.
-    destruct (plan_step g gen onto skip m old) as [m1|e] eqn:S; [|discriminate].
-    apply plan_step_cases in S; [|apply Hfresh; left; reflexivity].
-    destruct S as [[-> [Hs Hl]] | [ps [Hps [Hne ->]]]].
-    + destruct (IH m m' ND') as [Hok' [f [Hk Hf]]]; [intros r Hr; apply Hfresh; right; exact Hr | exact Hok | exact H |].
-      split; [exact Hok'|]. exists (fun x => if x =? old then false else f x).
-      split.
+  intros Hs H m1 e m2 E. destruct (H m1 e m2 E) as [E1 [E2 [E3 E4]]].
+  repeat split; [exact E1 | exact E2 | exact E3 |].
+  intros p Hp. destruct (E4 p Hp) as [P|P]; [left|right; exact P].
+  eapply p12_mono; [intros k x Hk; exact Hk | exact Hs | exact P].
+Qed.
+
+(* the loop invariant: [done] = the revisions handled so far *)
+Definition inv (onto : revid) (T done : list revid) (m : rmap) (sk : skmap) : Prop :=
+  (forall r, In r done -> rm_get m r <> None \/ sk_get sk r <> None) /\
+  (forall r, rm_get m r <> None -> In r done) /\
+  (forall M, sk_get sk M <> None -> In M done /\ rm_get m M = None /\ 1 < length (parents g M)) /\
+  sk_ok onto m sk /\ plan_ok onto T sk m.
+
+Lemma inv_nil onto T : inv onto T [] [] [].
+Proof.
+  unfold inv. split; [intros r []|]. split; [intros r H; exfalso; apply H; reflexivity|].
+  split; [intros M H; exfalso; apply H; reflexivity|]. split; [intros M v H; discriminate|].
+  intros m1 e m2 H. destruct m1; discriminate.
+Qed.
+
+Lemma inv_drop onto T done m sk old v :
+  inv onto T done m sk -> sk_get sk old = None -> rm_get m old = None ->
+  1 < length (parents g old) -> p12 onto m sk old v ->
+  inv onto T (done ++ [old]) m (sk_set sk old v).
+Proof.
+  intros [I1 [I2 [I3 [I4 I5]]]] Hs Hm Hl Hv.
+  assert (Mono : forall q, dropped_in sk q -> dropped_in (sk_set sk old v) q).
+  { unfold dropped_in. intros q Hq. rewrite sk_get_set. destruct (q =? old); [discriminate|exact Hq]. }
+  unfold inv. split; [|split; [|split; [|split]]].
+  - intros r Hr. apply in_app_or in Hr as [Hr|[<-|[]]].
+    + destruct (I1 r Hr) as [H|H]; [left; exact H|right; exact (Mono r H)].
+    + right. rewrite sk_get_set, Nat.eqb_refl. discriminate.
+  - intros r Hr. apply in_or_app. left. exact (I2 r Hr).
+  - intros M H. rewrite sk_get_set in H. destruct (M =? old) eqn:E.
+    + apply Nat.eqb_eq in E. subst M.
+      split; [apply in_or_app; right; left; reflexivity | split; assumption].
+    + destruct (I3 M H) as [A [B C]]. split; [apply in_or_app; left; exact A | split; assumption].
+  - intros M v0 H. rewrite sk_get_set in H. destruct (M =? old) eqn:E.
+    + apply Nat.eqb_eq in E. subst M. inversion H; subst v0.
+      eapply p12_mono; [intros k x Hk; exact Hk | exact Mono | exact Hv].
+    + eapply p12_mono; [intros k x Hk; exact Hk | exact Mono | exact (I4 M v0 H)].
+  - exact (plan_ok_mono onto T sk _ m Mono I5).
+Qed.
+
+Lemma inv_entry onto done rest m sk old ps :
+  topo_sortedb g (done ++ old :: rest) = true ->
+  inv onto (done ++ old :: rest) done m sk -> sk_get sk old = None -> rm_get m old = None ->
+  gen old ps <> old -> ps <> [] -> (forall p, In p ps -> pnow onto m sk old p) ->
+  inv onto (done ++ old :: rest) (done ++ [old]) (m ++ [(old, (gen old ps, ps))]) sk.
+Proof.
+  intros T [I1 [I2 [I3 [I4 I5]]]] Hs Hm Hne Hps Hok.
+  apply topo_sorted_split in T as [_ [_ T]].
+  assert (Mono : forall k x, rm_get m k = Some x -> rm_get (m ++ [(old, (gen old ps, ps))]) k = Some x)
+    by (intros k x; apply rm_get_snoc_some).
+  unfold inv. split; [|split; [|split; [|split]]].
+  - intros r Hr. apply in_app_or in Hr as [Hr|[<-|[]]].
+    + destruct (I1 r Hr) as [H|H]; [left|right; exact H].
+      destruct (rm_get m r) as [x|] eqn:G; [|congruence]. rewrite (Mono r x G). discriminate.
+    + left. rewrite rm_get_snoc_new by exact Hm. discriminate.
+  - intros r Hr. apply in_or_app. destruct (Nat.eq_dec r old) as [->|Hro]; [right; left; reflexivity|left].
+    apply I2. rewrite rm_get_snoc_other in Hr by exact Hro. exact Hr.
+  - intros M H. destruct (I3 M H) as [A [B C]].
+    split; [apply in_or_app; left; exact A|]. split; [|exact C].
+    rewrite rm_get_snoc_other; [exact B|]. intros ->. congruence.
+  - intros M v H. eapply p12_mono; [exact Mono | intros q Hq; exact Hq | exact (I4 M v H)].
+  - apply plan_ok_snoc; [exact I5|]. unfold entry_ok. cbn [fst snd].
+    split; [reflexivity|]. split; [exact Hne|]. split; [exact Hps|].
+    intros p Hp. destruct (Hok p Hp) as [P|[Hpar [G1 G2]]]; [left; exact P|right].
+    split; [exact Hpar|]. intros Hin. apply in_app_or in Hin as [Hin|[Hin|Hin]].
+    + destruct (I1 p Hin) as [H|H]; congruence.
+    + symmetry in Hin. exact (parent_neq p old Hpar Hin).
+    + exact (T p Hpar Hin).
+Qed.
+
+(* the loop  for oldrevid in todo *)
+Lemma loop_inv onto skip T : topo_sortedb g T = true -> forall rest done m sk m' sk',
+  done ++ rest = T -> inv onto T done m sk ->
+  plan_loop g gen onto skip rest (m, sk) = Ok (m', sk') ->
+  inv onto T T m' sk' /\
+  exists f, map fst m' = map fst m ++ filter f rest /\
+            forall r, In r rest -> f r = false -> skip = true /\ 1 < length (parents g r).
+Proof.
+  intros Tt. induction rest as [|old rest IH]; intros done m sk m' sk' E I H; cbn [plan_loop] in H.
+  - inversion H; subst m' sk'. rewrite app_nil_r in E. subst done. split; [exact I|].
+    exists (fun _ => true). cbn [filter]. rewrite app_nil_r. split; [reflexivity|]. intros r [].
+  - pose proof Tt as Ts. rewrite <- E in Ts. apply topo_sorted_split in Ts as [Hnd [Hnr _]].
+    pose proof I as [I1 [I2 [I3 [I4 I5]]]].
+    assert (Hm : rm_get m old = None).
+    { destruct (rm_get m old) eqn:G; [|reflexivity]. exfalso. apply Hnd. apply I2. congruence. }
+    assert (Hs : sk_get sk old = None).
+    { destruct (sk_get sk old) eqn:G; [|reflexivity]. exfalso. apply Hnd. apply (I3 old). congruence. }
+    destruct (plan_step g gen onto skip (m, sk) old) as [st1|e] eqn:S; [|discriminate].
+    pose proof (new_parents_ok onto m sk old I4) as [Nhd Nok].
+    apply plan_step_cases in S; [|exact Hm]. cbv zeta in S.
+    assert (E' : (done ++ [old]) ++ rest = T) by (rewrite <- app_assoc; exact E).
+    destruct S as [[v [Hv [-> [Hskip Hl]]]] | [Hne ->]].
+    + rewrite Hv in Nhd. cbn [hd12] in Nhd.
+      destruct (IH (done ++ [old]) m (sk_set sk old v) m' sk' E') as [If [f [Hk Hf]]];
+        [apply inv_drop; assumption | exact H |].
+      split; [exact If|]. exists (fun x => if x =? old then false else f x). split.
       * rewrite Hk. f_equal. cbn [filter]. rewrite Nat.eqb_refl.
-        apply filter_ext_in. intros a Ha. destruct (a =? old) eqn:E; [|reflexivity].
-        apply Nat.eqb_eq in E. subst a. contradiction.
+        apply filter_ext_in. intros a Ha. destruct (a =? old) eqn:Ea; [|reflexivity].
+        apply Nat.eqb_eq in Ea. subst a. contradiction.
       * intros r [<-|Hr] Hfr; [split; assumption|].
-        destruct (r =? old) eqn:E; [apply Nat.eqb_eq in E; subst r; contradiction|]. apply (Hf r Hr Hfr).
-    + destruct (IH (m ++ [(old, (gen old ps, ps))]) m' ND') as [Hok' [f [Hk Hf]]].
-      * intros r Hr. rewrite rm_get_snoc_other; [apply Hfresh; right; exact Hr|].
-        intros ->. contradiction.
-      * apply plan_ok_snoc; [exact Hok|]. unfold entry_ok. cbn [fst snd].
-        destruct (new_parents_ok onto m old) as [N1 N2]. rewrite <- Hps in N1, N2.
-        repeat split; [exact Hne | exact N1 | exact N2].
+        destruct (r =? old) eqn:Er; [apply Nat.eqb_eq in Er; subst r; contradiction|]. apply (Hf r Hr Hfr).
+    + set (ps := new_parents g m sk onto (parents g old)) in *.
+      assert (Hps : ps <> []) by (destruct ps; [contradiction|discriminate]).
+      destruct (IH (done ++ [old]) (m ++ [(old, (gen old ps, ps))]) sk m' sk' E') as [If [f [Hk Hf]]].
+      * rewrite <- E. apply inv_entry; try assumption; rewrite E; assumption.
       * exact H.
-      * split; [exact Hok'|]. exists (fun x => if x =? old then true else f x).
-        split.
+      * split; [exact If|]. exists (fun x => if x =? old then true else f x). split.
         -- rewrite Hk, map_app, <- app_assoc. cbn [map fst app filter]. rewrite Nat.eqb_refl.
-           f_equal. f_equal. apply filter_ext_in. intros a Ha. destruct (a =? old) eqn:E; [|reflexivity].
-           apply Nat.eqb_eq in E. subst a. contradiction.
+           f_equal. f_equal. apply filter_ext_in. intros a Ha. destruct (a =? old) eqn:Ea; [|reflexivity].
+           apply Nat.eqb_eq in Ea. subst a. contradiction.
         -- intros r [<-|Hr] Hfr; [rewrite Nat.eqb_refl in Hfr; discriminate|].
-           destruct (r =? old) eqn:E; [discriminate|]. apply (Hf r Hr Hfr).
+           destruct (r =? old) eqn:Er; [discriminate|]. apply (Hf r Hr Hfr).
 Qed.
 
 Lemma simple_plan_inv todo_set order start stop onto skip m :
   simple_plan g gen todo_set order start stop onto skip = Ok m ->
-  exists todo, replayed order start stop todo /\ plan_loop g gen onto skip todo [] = Ok m.
+  exists todo sk, replayed order start stop todo /\ plan_loop g gen onto skip todo ([], []) = Ok (m, sk).
 Proof.
   unfold simple_plan, todo_slice, replayed. intros H.
   destruct (match start with Some s => negb (memb s todo_set) | None => false end); [discriminate|].
@@ -239,7 +419,10 @@ Proof.
             end) as [start'|] eqn:T; cbn [bind] in H; [|discriminate].
   destruct (index_of start' order) as [i|] eqn:I; cbn [opt_or bind] in H; [|discriminate].
   destruct (index_of stop' order) as [j|] eqn:J; cbn [opt_or bind] in H; [|discriminate].
-  exists (slice order i (j + 1)). split; [|exact H].
+  destruct (plan_loop g gen onto skip (slice order i (j + 1)) ([], [])) as [[m0 sk]|] eqn:L;
+    cbn [bind fst] in H; [|discriminate].
+  inversion H; subst m0.
+  exists (slice order i (j + 1)), sk. split; [|exact L].
   exists start', stop', i, j. repeat split; try assumption.
   - destruct start as [s|]; [left; congruence|right].
     destruct (lca_is_null g stop' onto); [discriminate|].
@@ -254,6 +437,39 @@ Proof.
   intros T [s [t [i [j [_ [_ [_ [_ ->]]]]]]]]. apply topo_sorted_slice. exact T.
 Qed.
 
+(* ---- the specification of a plan ----------------------------------------------- *)
+
+(* the merges of the replayed slice that the plan dropped *)
+Definition dropped (todo : list revid) (m : rmap) (q : revid) : Prop :=
+  In q todo /\ ~ In q (map fst m) /\ 1 < length (parents g q).
+
+Theorem plan_spec todo_set order start stop onto skip m :
+  topo_sortedb g order = true ->
+  simple_plan g gen todo_set order start stop onto skip = Ok m ->
+  exists todo f,
+    replayed order start stop todo /\ map fst m = filter f todo /\
+    (forall r, In r todo -> f r = false -> skip = true /\ 1 < length (parents g r)) /\
+    forall m1 old new ps m2, m = m1 ++ (old, (new, ps)) :: m2 ->
+      new = gen old ps /\ new <> old /\ ps <> [] /\
+      forall p, In p ps ->
+        p = onto \/
+        (exists o' ps', linked (dropped todo m) o' old /\ In (o', (p, ps')) m1) \/
+        (In p (parents g old) /\ ~ In p todo).
+Proof.
+  intros T H. apply simple_plan_inv in H as [todo [sk [R L]]].
+  pose proof (replayed_topo _ _ _ _ T R) as Tt.
+  destruct (loop_inv onto skip todo Tt todo [] [] [] m sk eq_refl (inv_nil onto todo) L)
+    as [[_ [_ [I3 [_ I5]]]] [f [Hk Hf]]].
+  exists todo, f. split; [exact R|]. split; [exact Hk|]. split; [exact Hf|].
+  intros m1 old new ps m2 E.
+  destruct (I5 m1 _ m2 E) as [E1 [E2 [E3 E4]]]. cbn [fst snd] in *.
+  repeat split; [exact E1 | exact E2 | exact E3 |].
+  intros p Hp. destruct (E4 p Hp) as [[->|[o' [ps' [Lk G]]]]|P]; [left; reflexivity| |right; right; exact P].
+  right; left. exists o', ps'. split; [|apply rm_get_in; exact G].
+  eapply linked_mono; [|exact Lk]. intros q Hq. destruct (I3 q Hq) as [A [B C]].
+  split; [exact A|]. split; [apply rm_get_none; exact B | exact C].
+Qed.
+
 (* ---- the plan's domain ------------------------------------------------------ *)
 
 Theorem plan_domain_skip todo_set order start stop onto skip m :
@@ -262,10 +478,7 @@ Theorem plan_domain_skip todo_set order start stop onto skip m :
   exists todo f, replayed order start stop todo /\ map fst m = filter f todo /\
     forall r, In r todo -> f r = false -> skip = true /\ 1 < length (parents g r).
 Proof.
-  intros T H. apply simple_plan_inv in H as [todo [R L]].
-  pose proof (replayed_topo _ _ _ _ T R) as Tt.
-  destruct (loop_inv onto skip todo [] m (topo_sorted_NoDup g _ Tt)) as [_ [f [Hk Hf]]];
-    [intros r _; reflexivity | apply plan_ok_nil | exact L |].
+  intros T H. destruct (plan_spec _ _ _ _ _ _ _ T H) as [todo [f [R [Hk [Hf _]]]]].
   exists todo, f. split; [exact R | split; [exact Hk | exact Hf]].
 Qed.
 
@@ -346,13 +559,13 @@ Qed.
 
 Hypothesis gen_neq : forall r ps, gen r ps <> r.
 
-Lemma plan_loop_total skip : forall todo m, exists m', plan_loop g gen onto skip todo m = Ok m'.
+Lemma plan_loop_total skip : forall todo st, exists st', plan_loop g gen onto skip todo st = Ok st'.
 Proof.
-  induction todo as [|old rest IH]; intros m; cbn [plan_loop]; [exists m; reflexivity|].
+  induction todo as [|old rest IH]; intros st; cbn [plan_loop]; [exists st; reflexivity|].
   unfold plan_step. cbv zeta.
-  destruct ((1 <? length (parents g old)) && (length (new_parents g m onto (parents g old)) =? 1) && skip).
+  destruct ((1 <? length (parents g old)) && (length (new_parents g (fst st) (snd st) onto (parents g old)) =? 1) && skip).
   - apply IH.
-  - destruct (gen old (new_parents g m onto (parents g old)) =? old) eqn:E.
+  - destruct (gen old (new_parents g (fst st) (snd st) onto (parents g old)) =? old) eqn:E.
     + apply Nat.eqb_eq in E. exfalso. exact (gen_neq _ _ E).
     + apply IH.
 Qed.
@@ -377,7 +590,8 @@ Proof.
   pose proof tip_in_order as Hin.
   destruct (hd_error order) as [x|] eqn:Hd.
   - cbn [opt_or bind]. unfold todo_slice. rewrite (hd_error_index _ _ Hd), Hj. cbn [opt_or bind].
-    apply plan_loop_total.
+    destruct (plan_loop_total skip (slice order 0 (j + 1)) ([], [])) as [st' ->].
+    cbn [bind]. eexists. reflexivity.
   - exfalso. destruct order; [contradiction|discriminate].
 Qed.
 
@@ -385,41 +599,26 @@ End Cmd.
 
 (* ---- where the new parents come from ---------------------------------------- *)
 
+(* with or without skip_full_merged: the new base, or the new id of an EARLIER
+   entry that rewrites an old parent -- or a parent of a dropped merge among
+   the old parents, and so on through dropped merges ([linked]) --, or an old
+   parent outside the replayed revisions (a ghost, a revision before start) *)
 Theorem plan_parents todo_set order start stop onto skip m :
   topo_sortedb g order = true ->
   simple_plan g gen todo_set order start stop onto skip = Ok m ->
-  plan_ok onto m.
+  exists todo, replayed order start stop todo /\
+  forall m1 old new ps m2, m = m1 ++ (old, (new, ps)) :: m2 ->
+    new = gen old ps /\ new <> old /\ ps <> [] /\
+    forall p, In p ps ->
+      p = onto \/
+      (exists o' ps', linked (dropped todo m) o' old /\ In (o', (p, ps')) m1) \/
+      (In p (parents g old) /\ ~ In p todo).
 Proof.
-  intros T H. apply simple_plan_inv in H as [todo [R L]].
-  pose proof (replayed_topo _ _ _ _ T R) as Tt.
-  destruct (loop_inv onto skip todo [] m (topo_sorted_NoDup g _ Tt)) as [Hok _];
-    [intros r _; reflexivity | apply plan_ok_nil | exact L | exact Hok].
+  intros T H. destruct (plan_spec _ _ _ _ _ _ _ T H) as [todo [f [R [_ [_ E]]]]].
+  exists todo. split; [exact R | exact E].
 Qed.
 
-(* with or without skip_full_merged: the new base, or the new id of an EARLIER
-   entry that rewrites one of the old parents, or an old parent not rewritten
-   EARLIER (possibly a dropped merge, see parents_refuted) *)
-Theorem plan_parents_any todo_set order start stop onto skip m m1 old new ps m2 :
-  topo_sortedb g order = true ->
-  simple_plan g gen todo_set order start stop onto skip = Ok m ->
-  m = m1 ++ (old, (new, ps)) :: m2 ->
-  new = gen old ps /\ new <> old /\ ps <> [] /\
-  forall p, In p ps ->
-    p = onto \/
-    (exists o' ps', In o' (parents g old) /\ In (o', (p, ps')) m1) \/
-    (In p (parents g old) /\ ~ In p (map fst m1)).
-Proof.
-  intros T H E.
-  pose proof (plan_parents _ _ _ _ _ _ _ T H m1 _ m2 E) as [E1 [E2 [E3 E4]]]. cbn [fst snd] in *.
-  repeat split; [exact E1 | exact E2 | exact E3 |].
-  intros p Hp. destruct (E4 p Hp) as [->|[[o' [ps' [Ho G]]]|[Ho G]]]; [left; reflexivity| |].
-  - right; left. exists o', ps'. split; [exact Ho | apply rm_get_in; exact G].
-  - right; right. split; [exact Ho | apply rm_get_none; exact G].
-Qed.
-
-(* without skip_full_merged: the new base, or the new id of an EARLIER entry
-   that rewrites one of the old parents, or an old parent that the plan does
-   not rewrite at all *)
+(* without skip_full_merged nothing is dropped: the entry rewrites an old parent *)
 Theorem plan_parents_noskip todo_set order start stop onto m m1 old new ps m2 :
   topo_sortedb g order = true ->
   simple_plan g gen todo_set order start stop onto false = Ok m ->
@@ -430,20 +629,17 @@ Theorem plan_parents_noskip todo_set order start stop onto m m1 old new ps m2 :
     (exists o' ps', In o' (parents g old) /\ In (o', (p, ps')) m1) \/
     (In p (parents g old) /\ ~ In p (map fst m)).
 Proof.
-  intros T H E.
-  pose proof (plan_parents _ _ _ _ _ _ _ T H m1 _ m2 E) as [E1 [E2 [E3 E4]]]. cbn [fst snd] in *.
+  intros T H E. destruct (plan_spec _ _ _ _ _ _ _ T H) as [todo [f [R [Hk [Hf S]]]]].
+  assert (K : map fst m = todo).
+  { rewrite Hk. apply filter_all_true. intros x Hx. destruct (f x) eqn:Ef; [reflexivity|].
+    destruct (Hf x Hx Ef) as [C _]. discriminate. }
+  destruct (S m1 old new ps m2 E) as [E1 [E2 [E3 E4]]].
   repeat split; [exact E1 | exact E2 | exact E3 |].
-  intros p Hp. destruct (E4 p Hp) as [->|[[o' [ps' [Ho G]]]|[Ho G]]]; [left; reflexivity| |].
-  - right; left. exists o', ps'. split; [exact Ho | apply rm_get_in; exact G].
-  - right; right. split; [exact Ho|].
-    pose proof (plan_domain_slice _ _ _ _ _ _ T H) as R.
-    pose proof (replayed_topo _ _ _ _ T R) as Tk.
-    rewrite E, map_app in Tk |- *. cbn [map fst] in Tk |- *.
-    apply topo_sorted_split in Tk as [_ [_ Tk]].
-    intros Hin. apply in_app_or in Hin as [Hin|[Hin|Hin]].
-    + apply rm_get_none in G. contradiction.
-    + symmetry in Hin. exact (parent_neq p old Ho Hin).
-    + exact (Tk p Ho Hin).
+  intros p Hp. destruct (E4 p Hp) as [->|[[o' [ps' [L G]]]|[Ho G]]]; [left; reflexivity| |].
+  - right; left. exists o', ps'. split; [|exact G].
+    apply (linked_no_drop (dropped todo m)); [|exact L].
+    intros q [A [B _]]. apply B. rewrite K. exact A.
+  - right; right. split; [exact Ho|]. rewrite K. exact G.
 Qed.
 
 (* ---- dependencies come first -------------------------------------------------- *)
@@ -460,34 +656,36 @@ Theorem todo_deps_first todo_set order start stop onto skip m has m1 old new ps 
   m = m1 ++ (old, (new, ps)) :: m2 ->
   rebase_todo has m = rebase_todo has m1 ++ (if has new then [] else [old]) ++ rebase_todo has m2 /\
   forall p, In p ps ->
-    p = onto \/ (In p (parents g old) /\ rm_get m1 p = None) \/
+    p = onto \/ In p (parents g old) \/
     exists o' ps', In (o', (p, ps')) m1 /\ (has p = true \/ In o' (rebase_todo has m1)).
 Proof.
   intros T H E. split.
   - rewrite E, rebase_todo_app. unfold rebase_todo at 2. cbn [flat_map fst snd]. reflexivity.
-  - pose proof (plan_parents _ _ _ _ _ _ _ T H m1 _ m2 E) as [_ [_ [_ E4]]]. cbn [fst snd] in E4.
-    intros p Hp. destruct (E4 p Hp) as [->|[[o' [ps' [Ho G]]]|[Ho G]]]; [left; reflexivity| |right; left; split; assumption].
-    right; right. exists o', ps'. apply rm_get_in in G. split; [exact G|].
+  - destruct (plan_spec _ _ _ _ _ _ _ T H) as [todo [f [_ [_ [_ S]]]]].
+    destruct (S m1 old new ps m2 E) as [_ [_ [_ E4]]].
+    intros p Hp. destruct (E4 p Hp) as [->|[[o' [ps' [_ G]]]|[Ho _]]]; [left; reflexivity| |right; left; exact Ho].
+    right; right. exists o', ps'. split; [exact G|].
     destruct (has p) eqn:Hh; [left; reflexivity|right].
     unfold rebase_todo. apply in_flat_map. exists (o', (p, ps')). split; [exact G|].
     cbn [fst snd]. rewrite Hh. left. reflexivity.
 Qed.
 
-(* rebase() replays in graph.iter_topo_order(replace_map.keys()): in ANY
-   topological order of the old graph the entry a new parent refers to comes first *)
-Theorem deps_first_any_topo todo_set order start stop onto skip m m1 old new ps m2 :
+(* rebase() replays in graph.iter_topo_order(replace_map.keys()).  Without
+   skip_full_merged: in ANY topological order of the old graph the entry a new
+   parent refers to comes first *)
+Theorem deps_first_any_topo_noskip todo_set order start stop onto m m1 old new ps m2 :
   topo_sortedb g order = true ->
-  simple_plan g gen todo_set order start stop onto skip = Ok m ->
+  simple_plan g gen todo_set order start stop onto false = Ok m ->
   m = m1 ++ (old, (new, ps)) :: m2 ->
   forall p, In p ps ->
-    p = onto \/ (In p (parents g old) /\ rm_get m1 p = None) \/
+    p = onto \/ (In p (parents g old) /\ ~ In p (map fst m)) \/
     exists o' ps', In (o', (p, ps')) m1 /\
       forall l i j, topo_sortedb g l = true -> index_of o' l = Some i -> index_of old l = Some j -> i < j.
 Proof.
   intros T H E p Hp.
-  pose proof (plan_parents _ _ _ _ _ _ _ T H m1 _ m2 E) as [_ [_ [_ E4]]]. cbn [fst snd] in E4.
-  destruct (E4 p Hp) as [->|[[o' [ps' [Ho G]]]|[Ho G]]]; [left; reflexivity| |right; left; split; assumption].
-  right; right. exists o', ps'. split; [apply rm_get_in; exact G|].
+  destruct (plan_parents_noskip _ _ _ _ _ _ _ _ _ _ _ T H E) as [_ [_ [_ E4]]].
+  destruct (E4 p Hp) as [->|[[o' [ps' [Ho G]]]|P]]; [left; reflexivity| |right; left; exact P].
+  right; right. exists o', ps'. split; [exact G|].
   intros l i j Tl Hi Hj. exact (topo_index g l o' old i j W Tl Ho Hi Hj).
 Qed.
 
@@ -500,14 +698,13 @@ Theorem new_ids_distinct todo_set order start stop onto skip m :
   NoDup (map fst m) /\ NoDup (map (fun e => fst (snd e)) m).
 Proof.
   intros Inj T H.
+  destruct (plan_spec _ _ _ _ _ _ _ T H) as [todo [f [R [Hk [_ S]]]]].
   assert (ND : NoDup (map fst m)).
-  { destruct (plan_domain_skip _ _ _ _ _ _ _ T H) as [todo [f [R [Hk _]]]].
-    rewrite Hk. apply NoDup_filter. apply (topo_sorted_NoDup g). exact (replayed_topo _ _ _ _ T R). }
+  { rewrite Hk. apply NoDup_filter. apply (topo_sorted_NoDup g). exact (replayed_topo _ _ _ _ T R). }
   split; [exact ND|].
-  pose proof (plan_parents _ _ _ _ _ _ _ T H) as Hok.
   assert (Hgen : forall e, In e m -> fst (snd e) = gen (fst e) (snd (snd e))).
-  { intros e He. apply in_split in He as [a [b ->]]. destruct (Hok a e b eq_refl) as [E1 _]. exact E1. }
-  clear Hok H. induction m as [|e m IH]; [constructor|].
+  { intros [o [n ps]] He. apply in_split in He as [a [b E]]. destruct (S a o n ps b E) as [E1 _]. exact E1. }
+  clear S H Hk. induction m as [|e m IH]; [constructor|].
   cbn [map] in *. inversion ND as [|? ? Hn ND']; subst. constructor.
   - intros Hin. apply in_map_iff in Hin as [e' [He' Hin]].
     apply Hn. apply in_map_iff. exists e'. split; [|exact Hin].
@@ -518,25 +715,34 @@ Qed.
 
 End Plan.
 
-(* ---- skip_full_merged breaks the parent clause ------------------------------------ *)
+(* ---- the repaired plan of the old witness, and what rebase() does with it --------- *)
 
 (*   0 - 1 - 2        rebase 5 onto 2 with skip_full_merged:
       \   \           3 -> 103 on 2;  4 merges 1, which 2 already contains: dropped;
-       3 - 4 - 5      5 -> 105 with parents (2, 4): the OLD merge 4, not 103 *)
+       3 - 4 - 5      5 -> 105 on 103 (before be02b0d: on (2, 4), the OLD merge) *)
 Definition g_witness : dag := [[]; [0]; [1]; [0]; [3; 1]; [4]].
 
-Theorem parents_refuted :
-  exists g todo_set order tip onto m old new ps p,
+Example repaired_witness :
+  simple_plan g_witness (gen_canon None) [3; 4; 5] [3; 4; 5] None (Some 5) 2 true
+  = Ok [(3, (103, [2])); (5, (105, [103]))].
+Proof. reflexivity. Qed.
+
+(* [5; 3] is a topological order of the plan's keys in the old graph (the edge
+   from 5 leads to 4, which is not a key), yet 5's new parent 103 is the new id
+   of the entry for 3: replaying in that order needs a revision that does not
+   exist yet.  graph.iter_topo_order really returns [5; 3] here. *)
+Theorem any_topo_refuted :
+  exists g todo_set order tip onto m l old new ps p o' ps' i j,
     wf_dag g = true /\ topo_order_of g todo_set order = true /\
     todo_set = find_unique_ancestors g tip [onto] /\
     simple_plan g (gen_canon None) todo_set order None (Some tip) onto true = Ok m /\
-    In (old, (new, ps)) m /\ In p ps /\
-    p <> onto /\ (forall e, In e m -> fst (snd e) <> p) /\ In p todo_set /\
-    (exists e, In e m /\ In (fst e) (parents g p)).
+    topo_order_of g (map fst m) l = true /\
+    In (old, (new, ps)) m /\ In p ps /\ In (o', (p, ps')) m /\
+    index_of o' l = Some i /\ index_of old l = Some j /\ j < i.
 Proof.
-  exists g_witness, [3; 4; 5], [3; 4; 5], 5, 2, [(3, (103, [2])); (5, (105, [2; 4]))], 5, 105, [2; 4], 4.
+  exists g_witness, [3; 4; 5], [3; 4; 5], 5, 2, [(3, (103, [2])); (5, (105, [103]))], [5; 3],
+         5, 105, [103], 103, 3, [2], 1, 0.
   split; [reflexivity|]. split; [reflexivity|]. split; [reflexivity|]. split; [reflexivity|].
-  split; [right; left; reflexivity|]. split; [right; left; reflexivity|]. split; [discriminate|].
-  split; [intros e [<-|[<-|[]]]; discriminate|]. split; [right; left; reflexivity|].
-  exists (3, (103, [2])). split; left; reflexivity.
+  split; [reflexivity|]. split; [right; left; reflexivity|]. split; [left; reflexivity|].
+  split; [left; reflexivity|]. split; [reflexivity|]. split; [reflexivity|]. constructor.
 Qed.
